@@ -77,7 +77,7 @@ func contractName(fn *ssa.Function) string {
 	if fn.Parent() != nil {
 		// closure: parentName$N
 		name := fn.Name() // e.g. handleFlush$1
-		i := strings.Index(name, "$")
+		i := strings.LastIndex(name, "$") // nested closures: f$1$2's parent is f$1
 		return contractName(fn.Parent()) + name[i:]
 	}
 	name := strings.ReplaceAll(fn.Name(), "github.com/danthegoodman1/bloomsearch.", "")
